@@ -194,13 +194,22 @@ class Scenario:
             js = [j for j in range(n) if (a1 >> j) & 1]
             fa = bool(a2 % 2)
             want = tt.forall(t[0], n, js) if fa else tt.exists(t[0], n, js)
-            return [(m.quantify(o[0], set(names(a1)), forall=fa), want)]
+            q = set(names(a1))
+            if a2 & 2:
+                q = (x for x in names(a1))      # one-shot iterator
+            elif a2 & 4:
+                q = map(str, names(a1))
+            return [(m.quantify(o[0], q, forall=fa), want)]
         if e == 'exist_forall':
             js = [j for j in range(n) if (a1 >> j) & 1]
+            q = names(a1)
+            if a2 & 2:
+                q = iter(q)
+            elif a2 & 4:
+                q = (x for x in names(a1))
             if a2 % 2:
-                return [(m.forall(names(a1), o[0]),
-                         tt.forall(t[0], n, js))]
-            return [(m.exist(names(a1), o[0]), tt.exists(t[0], n, js))]
+                return [(m.forall(q, o[0]), tt.forall(t[0], n, js))]
+            return [(m.exist(q, o[0]), tt.exists(t[0], n, js))]
         if e == 'apply_quant':
             js = [j for j in range(n) if (a1 >> j) & 1]
             alias = ['\\A', 'forall', '\\E', 'exists'][a2 % 4]
@@ -236,6 +245,10 @@ class Scenario:
             for x, v in d.items():
                 xv = tt.var(n, nm.index(x))
                 want &= xv if v else (~xv & F)
+            if all(d.values()) and a2 & 8:
+                # positive cube given as list / generator of names
+                arg = list(d) if a1 & 1 else (x for x in list(d))
+                return [(m.cube(arg), want)]
             return [(m.cube(d), want)]
         if e == 'var':
             j = a1 % n
